@@ -8,7 +8,7 @@ import vlib, lsem, gen_lines, gen_core
 from luagen import render, finalize
 
 PROP = "C17"
-LAYOUTS = [("canon", "\n"), ("shift", "\n"), ("shift", "\r\n"), ("spread", "\n"), ("spread", "\r\n"), ("shift", "\r")]
+LAYOUTS = [("canon", "\n"), ("shift", "\n"), ("shift", "\r\n"), ("spread", "\n"), ("spread", "\r\n"), ("shift", "\r"), ("cmtline", "\n")]
 
 
 def run(tier):
